@@ -183,3 +183,14 @@ def check(ctx):
 
     # ---- R07-f the readiness outcome is not overtaken by a cancellation of the starter -------------------------------------------
     waiter_guard(ctx, "R07-f", "a starter whose readiness future has completed (value or the child's error) is not cancelled over it")
+
+    # ---- R07-g "wait for the child" really waits until the child has finished -----------------------------------------------------------
+    from .common import dominates_all_exits, TASKS
+    hw = ctx.fn("TaskHandle.wait", TASKS)
+    dominates_all_exits(ctx, "R07-g", hw, "await self._finished_event.wait()", "TaskHandle.wait() waits for the finished event on every path (a handle that is "
+                        "merely cancelling is not finished)")
+    rc = ctx.fn("TaskHandle._run_coro", TASKS)
+    sets = [w for w in ctx.writers("_finished_event", modules=[TASKS]) if w[3] == "call:set"]
+    ok = len(sets) == 1 and sets[0][0] is not None and sets[0][0].qual == "TaskHandle._run_coro"
+    ctx.ob("R07-g", rc, "the finished event is set only when the task's coroutine has ended", ok,
+           detail="" if ok else f"_finished_event.set() occurs in {[w[0].qual if w[0] else '?' for w in sets]}", by=("single setter in _run_coro",))
